@@ -76,14 +76,28 @@ def signature(prop, shape, category, what):
     return '%s:%s:%s:%s' % (prop, shape, category, first[:80].strip())
 
 
+# the quick tier runs four shapes per property (together the properties cover all shapes); thorough runs all
+QUICK_SHAPES = {
+    'C09': ['o2m_opt', 'm2m', 'o2o_req_casc', 'mix_opt'],
+    'C10': ['o2m_req_casc', 'm2m', 'o2o_opt', 'o2m_opt'],
+    'C11': ['o2m_opt_casc', 'o2o_req', 'm2m', 'mix_opt'],
+    'C12': ['o2o_opt', 'm2m', 'mix_req_nocasc', 'o2m_opt'],
+    'C13': ['o2m_req_nocasc', 'o2o_req', 'mix_req_nocasc', 'o2m_opt'],
+    'C14': ['o2m_opt', 'o2o_opt', 'm2m', 'o2m_req_casc'],
+    'C15': ['o2m_req_casc', 'o2m_req_nocasc', 'o2o_req_casc', 'mix_req_nocasc'],
+    'C16': ['o2m_req_casc', 'o2m_opt', 'o2o_req', 'm2m'],
+    'C23': ['o2m_opt', 'o2o_opt', 'm2m'],
+}
+
+
 def run(ctx, prop, shapes=None, strategies=('default',), focus=None):
     quick = ctx.tier == 'quick'
-    shapes = shapes or ALL_SHAPES
+    shapes = shapes or (QUICK_SHAPES[prop] if quick else ALL_SHAPES)
     level = 4 if quick else 5
-    nbeh = 800 if quick else 6000
+    nbeh = 1500 if quick else 8000
     if len(strategies) > 1:
         nbeh = nbeh // 2
-    jobs = [(shape, level, nbeh, ctx.seed * 1000 + i * 10, tuple(strategies), ctx.scratch.dir, 2) for i, shape in enumerate(shapes)]
+    jobs = [(shape, level, nbeh, ctx.seed * 1000 + i * 10, tuple(strategies), ctx.scratch.dir, 4 if quick else 2) for i, shape in enumerate(shapes)]
     mp = multiprocessing.get_context('fork')
     with mp.Pool(min(len(jobs), 8)) as pool:
         results = [r for rs in pool.map(_one_shape, jobs) for r in rs]
